@@ -87,6 +87,8 @@ def build_plan(choice: Choice, tier):
             w2 = d(p["writers"], "dup.assign")
             scripts[w2].append(["store", g, text_of(g, w2, False) + "-dup"])
     p["writer_scripts"] = scripts
+    # after flush(): the storage is used again by a fresh writer process
+    p["reuse_after_flush"] = [[g, f"again{g}"] for g in ([0, 1] if d(2, "reuse.two") else [0])] if d(3, "reuse") == 2 else []
     rs = []
     universe = n + 2
     for r in range(p["readers"]):
@@ -116,10 +118,13 @@ def build_plan(choice: Choice, tier):
         p["write_fault"] = {"suffix": f"_{d(p['writers'], 'write.fault.writer')}", "at": 1 + d(4, "write.fault.at"),
                             "persistent": wf == 7}
     if d(8, "unencodable") == 7:
-        cands = [(w, i) for w, sc in enumerate(scripts) for i, o in enumerate(sc) if not o[2].endswith("-dup")]
+        cands = [(w, i) for w, sc in enumerate(scripts) for i, o in enumerate(sc) if o[0] == "store" and not o[2].endswith("-dup")]
         if cands:
             w, i = cands[d(len(cands), "unencodable.which")]
             scripts[w][i][2] = scripts[w][i][2][:8] + "\udcff-unencodable"
+    for sc in scripts:
+        if len(sc) >= 2 and d(5, "reopen") == 4 and not p["write_fault"]:
+            sc.insert(1 + d(len(sc) - 1, "reopen.at"), ["reopen"])
     p["granularity"] = "line" if d(6, "granularity") != 5 else "sync"
     p["n"] = n
     return p
@@ -152,6 +157,10 @@ def run_script(k, storage, script, hist, who):
                     hist.add(who=who, kind="store", g=op[1], text=op[2], a=a, b=k.step, ok=None)
                 except ValueError:
                     hist.add(who=who, kind="store", g=op[1], text=op[2], a=a, b=k.step, ok=False)
+            elif kind == "reopen":
+                storage.close()
+                storage.open()
+                continue
             elif kind == "get":
                 try:
                     v = storage[op[1]]
@@ -199,8 +208,9 @@ def scenario(k: Kernel, plan, obs):
     obs["storage"] = storage
 
     class Actor(ctx.Process):
-        def __init__(self, storage, script, who, writer):
+        def __init__(self, storage, script, who, writer, hist=hist):
             super().__init__()
+            self.hist = hist
             self.storage = storage
             self.script = script
             self.who = who
@@ -208,11 +218,10 @@ def scenario(k: Kernel, plan, obs):
             self.sim_role = "writer" if writer else "reader"
 
         def run(self):
-            if not self.writer:
-                self.storage.reader_only = True
+            self.storage.reader_only = not self.writer
             self.storage.open()
             try:
-                run_script(k, self.storage, self.script, hist, self.who)
+                run_script(k, self.storage, self.script, self.hist, self.who)
             finally:
                 try:
                     self.storage.close()
@@ -262,6 +271,25 @@ def scenario(k: Kernel, plan, obs):
         fl["reads"] = r
         fl["list"] = list(storage)
     obs["flushed"] = fl
+    if plan["reuse_after_flush"]:
+        obs["phase"] = "reuse"
+        TornFileIO.fail = None      # the faults stop before the storage is used again
+        hist2 = History()
+        w = Actor(storage, [["store", g, t] for g, t in plan["reuse_after_flush"]], "w-again", True, hist2)
+        w.start()
+        w.join()
+        storage.reader_only = True
+        with storage:
+            ru = {"len": len(storage), "contiguous": storage.is_contiguous(), "list": list(storage), "exit": w.exitcode,
+                  "errors": [o.get("error") for o in hist2.ops if "error" in o]}
+            reads = []
+            for g, _ in plan["reuse_after_flush"]:
+                try:
+                    reads.append(storage[g])
+                except IndexError:
+                    reads.append(None)
+            ru["reads"] = reads
+        obs["reused"] = ru
     obs["phase"] = "done"
 
 
@@ -415,6 +443,12 @@ def evaluate(plan, obs, k, kind, info):
             viol.append({"class": "flush", "site": "files-left", "message": str(fl["files_left"])})
         if fl["len"] != 0 or fl["list"] or any(v is not None for v in fl["reads"].values()):
             viol.append({"class": "flush", "site": "not-reset", "message": f"after flush: len={fl['len']} list={fl['list']} reads={fl['reads']}"})
+    ru = obs.get("reused")
+    if ru is not None:
+        exp = [t for _, t in plan["reuse_after_flush"]]
+        if ru["list"] != exp or ru["reads"] != exp or ru["len"] != len(exp) or ru["contiguous"] is not True or ru["exit"] != 0:
+            viol.append({"class": "flush", "site": "reuse-after-flush",
+                         "message": f"storing {exp} into the flushed storage gave {ru}"})
     if kind == "stall":
         viol.append({"class": "stall", "site": stall_site(info), "message": str(info["blocked"])})
     if kind == "crash":
@@ -468,7 +502,7 @@ class Spec:
             "tasks runnable at once and one pre-emption; distinct = distinct sync-order signature among those runs")
 
     def runs(self, tier):
-        return 8000 if tier == "quick" else 300000
+        return 6000 if tier == "quick" else 300000
 
     def wall_budget(self, tier):
         return 150 if tier == "quick" else 3000
@@ -518,8 +552,8 @@ class Spec:
 
 def plan_short(plan):
     p = dict(plan)
-    p["writer_scripts"] = [[[o[0], o[1], o[2] if len(o[2]) < 50 else o[2][:30] + f"...({len(o[2])})"] for o in s]
-                           for s in plan["writer_scripts"]]
+    p["writer_scripts"] = [[o if o[0] != "store" else [o[0], o[1], o[2] if len(o[2]) < 50 else o[2][:30] + f"...({len(o[2])})"]
+                            for o in s] for s in plan["writer_scripts"]]
     return p
 
 
